@@ -175,6 +175,21 @@ def strings(rep, cfg):
                 ok = src_ok and inits[0] is felem(f, 0) and step_ok and rej_ok
                 why = "iterates the characters of the input: %s; starts at 0: %s; step acc*10 + digit (radix 10 in both places): %s; a non-digit is the only rejection: %s" % (
                     src_ok, inits[0] is felem(f, 0), step_ok, rej_ok)
+            if not ok and out.value.op == "try_fold_t":
+                # the same evaluation written as `chars().try_fold(0, |acc, c| digit(c).map(|d| 10*acc + d).ok_or(()))`
+                it, item, acc, init, step = out.value.args
+                dig_opt = mk("call", "core::char::methods::<impl char>::to_digit", item, lit(10))
+                dig = Tm.payload(dig_opt, "Some", 0)
+                arr = [mk("cast", "u64", dig), mk("cast", "u64", Tm.intop("shr", dig, lit(64)))] + [lit(0)] * (LIMBS64[f] - 2)
+                D = mk("from_le_limbs", f, mk("array", *arr))
+                N = P.Norm(K.MODULI[f])
+                src_ok = it.op == "call" and it.args[0].endswith("::chars") and it.args[1] is mk("param", "s")
+                c_some = Tm.is_variant(dig_opt, "Some")
+                shape = step.op == "ite" and step.args[0] is c_some and step.args[1].op == "variant" and step.args[1].args[0] == "Ok" \
+                    and step.args[2].op == "variant" and step.args[2].args[0] == "Err"
+                step_ok = shape and N.pkey(N.poly(step.args[1].args[1])) == N.pkey(N.poly(mk("add", mk("mul", felem(f, 10), acc), D)))
+                ok = src_ok and init is felem(f, 0) and step_ok
+                why = "try_fold form - iterates the characters of the input: %s; starts at 0: %s; step Ok(acc*10 + digit) / Err on a non-digit: %s" % (src_ok, init is felem(f, 0), step_ok)
             rep.ob("STR/%s/%s::from_str" % (cfg.name, f), ok, "FromStr must be decimal Horner evaluation rejecting non-digits: " + why, where=cfg.where(p))
         p = find1(rep, cfg, "Display(%s)" % f, r"^fields::%s::arkworks::<impl core::fmt::Display for .*>::fmt$" % f)
         if p:
